@@ -7,7 +7,7 @@ P=$1; O=/tmp/seed-$P-out; V=/verif
 W=$(mktemp -d /tmp/confirm.XXXXXX); rmdir $W
 git -C /repo worktree add --detach $W HEAD -q || exit 2
 trap 'git -C /repo worktree remove --force $W; rm -rf $W' EXIT INT TERM
-for X in A B C D E F; do
+for X in A B C D E F G H; do
   [ -f $O/patch_$X.diff ] || continue
   d=$V/benign/$P-$X; mkdir -p $d
   cp $O/patch_$X.diff $d/patch.diff; cp $O/equiv_${X}_test.go $d/equiv_test.go 2>/dev/null; cp $O/meta_$X.json $d/meta.json
